@@ -1,7 +1,7 @@
 SPEC = {
     "id": "C08",
     "props_file": "Props/C08.v",
-    "gen": [],
+    "gen": ["atomicconsts"],
     "streams": [
         {"name": "failtx", "cmd": "failtx",
          "args": {"quick": ["-cases", "260", "-per", "65"], "thorough": ["-cases", "5000", "-per", "100"]},
